@@ -6,7 +6,7 @@ C12 - the Twp/Rge/Sec standard form is canonical, round-trips, and is strict.
     TRS.construct_trs, TRS().set_twprgesec, Tract.from_twprgesec;
 (b) string side: every string within edit distance 1 (quick) / 2 (thorough) of each
     seed string (valid, error, undefined, partial placeholders, bare Twp/Rge) over a
-    28-character alphabet, through TRS(s), trs_to_dict(s), TRS.trs_to_dict(s),
+    30-character alphabet, through TRS(s), trs_to_dict(s), TRS.trs_to_dict(s),
     Tract(desc, trs=s), with the cache on and off.
 """
 import itertools
@@ -19,7 +19,7 @@ ID = 'C12'
 LEVEL = 'model_checking'
 TECHNIQUE = ('bounded exhaustive enumeration: all strings within edit distance <= 2 of 9 seed TRS strings + all '
              'constructor encodings over a boundary-value pool, against an independent canonical-form oracle')
-LEVEL_TEXT = ('Every string at edit distance <= 1 (quick; <= 2 thorough) from 9 seeds over a 28-character alphabet and every '
+LEVEL_TEXT = ('Every string at edit distance <= 1 (quick; <= 2 thorough) from 9 seeds over a 30-character alphabet and every '
               'constructor encoding of a boundary-value pool is run through all four public entry points with the cache on and '
               'off; the oracle is an independent anchored regular expression + canonical formatter. Strictness defects '
               '(unanchored match, blanket lower-casing, padding) are single-character phenomena, so distance 2 is a strong bound.')
@@ -27,7 +27,7 @@ LEVEL_NOTE = ('Trusted: the oracle STD regex in mc/props/c12.py. A bare Twp/Rge 
               '(used by pretty_desc) and may yield "<twprge>XX". Upper-case direction letters are accepted and lower-cased.')
 RULE = (
     "generator automaton over edit scripts: state = (seed string, list of <= d single-character edits "
-    "(insert/delete/substitute over the alphabet '0123456789nsewXz_NSEW -axZ' + newline + tab)); transition = one more edit; states are "
+    "(insert/delete/substitute over the alphabet '0123456789nsewXz_NSEW -axZ' + newline + tab + two non-ASCII decimal digits)); transition = one more edit; states are "
     "canonicalised by the resulting string (deduplicated across seeds and scripts by a crc32 partition); every state "
     "is executed through TRS(s), trs_to_dict(s), Tract('x', trs=s), TRS(TRS(s).trs) with the cache on and off. "
     "Constructor side: product of twp, rge in {0,1,9,10,99,100,154,999}, sec in {0,1,9,10,36,99}, n/s, e/w x 7 encodings "
@@ -35,15 +35,15 @@ RULE = (
 )
 ASSUMPTIONS = [
     "strings further than edit distance 2 from a seed are not explored",
-    "a string is 'exactly in the standard form' iff it fully matches (d{1,3}[nsNS]|XXXz|___z)(d{1,3}[ewEW]|XXXz|___z)(dd|XX|__); "
+    "a string is 'exactly in the standard form' iff it fully matches (d{1,3}[nsNS]|XXXz|___z)(d{1,3}[ewEW]|XXXz|___z)(dd|XX|__) with d an ASCII digit 0-9; "
     "the bare Twp/Rge form without section is the one designed exception",
 ]
 
 SEEDS = ['154n97w14', '1s2e01', '12n3w36', 'XXXzXXXzXX', '___z___z__',
          '154nXXXz14', '___z97w__', '154n97wXX', '154n97w']
-ALPHABET = '0123456789nsewXz_NSEW -axZ\n\t'
-SMALL_ALPHABET = '1nwX_zN xZ\n'
-STD = re.compile(r'(?P<twp>\d{1,3}[nsNS]|XXXz|___z)(?P<rge>\d{1,3}[ewEW]|XXXz|___z)(?P<sec>\d{2}|XX|__)?$')
+ALPHABET = '0123456789nsewXz_NSEW -axZ\n\t\u0967\uff11'     # incl. two non-ASCII decimal digits (Devanagari, full-width)
+SMALL_ALPHABET = '1nwX_zN xZ\n\u0967'
+STD = re.compile(r'(?P<twp>[0-9]{1,3}[nsNS]|XXXz|___z)(?P<rge>[0-9]{1,3}[ewEW]|XXXz|___z)(?P<sec>[0-9]{2}|XX|__)?$')
 K_UNITS = {'quick': 16, 'thorough': 64}
 
 
@@ -316,6 +316,12 @@ SPECIALS = [
     ((154, 97, '-1'), '154n97wXX', False),
     ((154, 97, '1.5'), '154n97wXX', False),
     (('1 54', 97, 14), 'XXXz97w14', False),
+    # decimal digits outside ASCII: int() understands them, the standard form does not contain them
+    (('\u0661\u0665\u0664', 97, 14), '154n97w14', False),
+    (('\u0661\u0665\u0664n', '\u0669\u0667w', 14), '154n97w14', False),
+    ((154, '\uff19\uff17', 14), '154n97w14', False),
+    ((154, 97, '\u0661\u0664'), '154n97w14', False),
+    ((154, 97, '\u0967\u096a'), '154n97w14', False),
 ]
 
 
